@@ -319,6 +319,15 @@ func constOf(v ssa.Value) (constant.Value, bool) {
 }
 
 func constString(v ssa.Value) (string, bool) {
+	// a package-level string variable that only its package initialiser stores to, with a constant value
+	if u, ok := v.(*ssa.UnOp); ok && u.Op == token.MUL {
+		if g, ok := u.X.(*ssa.Global); ok && isStringish(u.Type()) {
+			if k, ok := globalStringConst(g); ok {
+				return k, true
+			}
+			return "", false
+		}
+	}
 	// string([]rune{c1, c2, …}) built in place from constants
 	if cv, ok := v.(*ssa.Convert); ok && isStringish(cv.Type()) {
 		if _, isSlice := cv.X.Type().Underlying().(*types.Slice); isSlice {
@@ -1773,4 +1782,52 @@ func (s *Summarizer) strEqConst(v ssa.Value, k string, env termEnv) *Form {
 		return atom(&LAtom{Kind: "eq", Str: k, Term: t, Desc: fmt.Sprintf("%s==%q", termStr(t), k)})
 	}
 	return fUnknown("string comparison " + s.pv.Of(v).String())
+}
+
+var globalStringCache = map[*ssa.Global]*string{}
+
+// globalStringConst: the value of a package-level string variable that is written exactly once, by its
+// package's initialiser, with a constant (or a constant rune-slice conversion).
+func globalStringConst(g *ssa.Global) (string, bool) {
+	if v, ok := globalStringCache[g]; ok {
+		if v == nil {
+			return "", false
+		}
+		return *v, true
+	}
+	globalStringCache[g] = nil
+	if curProgram == nil || g.Pkg == nil {
+		return "", false
+	}
+	var only *ssa.Store
+	n := 0
+	visit := func(f *ssa.Function) {
+		if f == nil {
+			return
+		}
+		for _, b := range f.Blocks {
+			for _, in := range b.Instrs {
+				if st, ok := in.(*ssa.Store); ok && st.Addr == ssa.Value(g) {
+					n++
+					only = st
+				}
+			}
+		}
+	}
+	initFn := g.Pkg.Func("init")
+	for _, f := range curProgram.SrcFuncs() {
+		if f != initFn {
+			visit(f)
+		}
+	}
+	visit(initFn)
+	if n != 1 || only.Parent() != g.Pkg.Func("init") {
+		return "", false
+	}
+	k, ok := constString(only.Val)
+	if !ok {
+		return "", false
+	}
+	globalStringCache[g] = &k
+	return k, true
 }
